@@ -129,7 +129,8 @@ def c12(tier, seed):
     return _simple_api("C12", tier, seed, "pairs",
                        "genuine (incl. chunk-boundary lengths), tampered, truncated, garbage and wrong-key inputs, each through "
                        "execute_verify and execute_decrypt; oracle: equal verdicts, verify writes nothing, no write reaches an "
-                       "input stream; distinct = (class, offset, arg, length, verdict)", 20000, crash_is_violation=False)
+                       "input stream; progress printer on/off and size argument {real, 0, 1} varied per case; a decrypt that dies or hangs after "
+                       "verify accepted is a disagreement; distinct = (class, offset, arg, length, verdict)", 20000, crash_is_violation=False)
 
 
 @prop("C07")
